@@ -13,6 +13,15 @@ CHECKS={
  "C06":dict(tech="runtime monitoring: reference-model oracle (winding number / ray crossings on a dense independent flattening, signed area) over seeded paths and hostile query points",
    text="Windings, Crossings, Contains (4 rules), CCW and Filling are called on generated closed paths at generic points, points level with vertices, exact boundary points, and compared with independent winding numbers; many hostile point classes fail in the library today and are pinned as exact-input witnesses (see known_findings.json), the rest is explored randomly.",
    note="trusted: harness/geom dense flattening (deviation < 5e-7*scale) and exact-sign winding; demoted strata are listed in the evidence", ref="DESIGN.md §5 C06"),
+ "C03":dict(tech="runtime monitoring: reference-model oracle (exact nearest-point distances to an independent curve evaluator, order-preserving vertex matching) over seeded curve classes x tolerances",
+   text="Flatten/ReplaceArcs/XMonotone are run on generated paths over 4 decades of tolerance; outputs are checked for structure (commands, sub-paths, end points, closedness), vertices on the curve in curve order, curve within K*t of the polyline (K per segment kind), arc replacement within 2e-3*r, x-monotonicity and geometric identity of XMonotone.",
+   note="trusted: harness/geom curve evaluation and golden-section nearest point; K (3 quad, 6 cubic, 1.5 arc) is this monitor's reading of 'small constant multiple'; elliptic arcs get the arc-to-cubic floor added (finding F-C03-ellipse-floor)", ref="DESIGN.md §5 C03"),
+ "C07":dict(tech="runtime monitoring: reference-model oracle (own 2x3 matrix arithmetic and arc evaluator; pos'(t) = m*pos(t)) over seeded paths x matrix classes incl. near-singular",
+   text="Transform is run on generated paths under matrices composed by the monitor's own arithmetic; every curved segment of the result is compared with the image of the source at 9 parameters (arcs included), end points and command structure exactly; Matrix Mul/Dot/constructors/T/Det/Inv/Decompose/ToSVG are checked against textbook definitions on every case.",
+   note="trusted: harness/geom arc evaluation (SVG F.6.5) and the monitor's matrix code; tolerance 1e-6*size, growing linearly with the condition of the matrix beyond 250 (ill-conditioned end-point parametrisation)", ref="DESIGN.md §5 C07"),
+ "C08":dict(tech="runtime monitoring: reference-model oracle (extent of a provably dense independent sampling) over seeded paths, plus translation/reflection equivariance",
+   text="Bounds and FastBounds of generated paths are compared with the extent of an independent dense sampling (containment, tightness on all four sides, FastBounds contains Bounds) and with their own images under an integer translation and both axis reflections.",
+   note="trusted: harness/geom flattening with the chord bound h^2/8*max|P''| < 1e-7*scale; equivariance goes through Path.Transform (C07)", ref="DESIGN.md §5 C08"),
 }
 NA_REASON="monitor not built yet (work in progress; see DESIGN.md §5)"
 m={"version":1,"setup_cmd":"./run.sh setup",
